@@ -6,13 +6,14 @@ pub mod c01;
 pub mod c04;
 pub mod c05;
 pub mod c06;
+pub mod c07;
 pub mod c09;
 pub mod c15;
 pub mod c16;
 pub mod c18;
 
 pub fn all() -> &'static [PropDef] {
-    static ALL: &[PropDef] = &[c01::DEF, c04::DEF, c05::DEF, c06::DEF, c09::DEF, c15::DEF, c16::DEF, c18::DEF];
+    static ALL: &[PropDef] = &[c01::DEF, c04::DEF, c05::DEF, c06::DEF, c07::DEF, c09::DEF, c15::DEF, c16::DEF, c18::DEF];
     ALL
 }
 
